@@ -44,10 +44,9 @@ Proof.
     etransitivity; [exact Hy|]. apply Nat.le_max_r.
 Qed.
 
-Ltac ws_step sb Hw :=
+Ltac ws_step sb Hw f' x' Hf' :=
   match goal with
   | |- context [run_f sb ?f (?w ++ ?more) (T ?c (mksrec S_eatws ?sv ?cur ?nm :: ?below) ?g ?hi ?off) (mkloc ?x ?nb ?lo ?ln)] =>
-      let f' := fresh "f" in let x' := fresh "x" in let Hf' := fresh "Hf" in
       destruct (run_ws sb c w f sv cur nm below g hi off x nb lo ln more) as (f' & x' & Hf' & ->);
       [ first [assumption | unfold REDO_FUEL; lia] | exact Hw | ]
   end.
@@ -118,11 +117,11 @@ Proof.
   assert (ER : render_mems ((a, k, b, cw, v, d) :: r) ++ rest =
                a ++ 34 :: render_chars k ++ 34 :: b ++ 58 :: cw ++ render v ++ d ++ tl_ ++ rest).
   { cbn [render_mems render_mem]. unfold render_str. fold tl_.
-    repeat (rewrite <- ?app_assoc; cbn [app]; rewrite <- ?app_comm_cons). Show. reflexivity. }
+    repeat (rewrite <- ?app_assoc; cbn [app]; rewrite <- ?app_comm_cons). reflexivity. }
   rewrite ER.
   assert (F16 : (8 <= REDO_FUEL)%nat) by (unfold REDO_FUEL; lia).
   (* blanks, opening quote, name, closing quote *)
-  ws_step sb Hwa.
+  ws_step sb Hwa f1 x1 Hf1.
   rewrite obj_name_open; [|exact Hs|lia].
   match goal with |- context [run_f sb REDO_FUEL (render_chars k ++ ?more) (SS c _ _ _ _ _ _ _ ?dd ?ss ?uu ?oo) (mkloc ?xx nb ?ll None)] =>
     destruct (str_body sb c S_object_field k (or_intror eq_refl) Hwk REDO_FUEL 0 [] svs dd ss uu below (JObj acc) None
@@ -133,10 +132,9 @@ Proof.
                 oo xx nb ll more Hf2 Hhi2) as (g3 & ->) end.
   cbn [close_top]. rewrite <- Hp. cbn [app]. rewrite dec_decode, Hkey.
   (* blanks, colon, blanks *)
-  ws_step sb Hwb.
+  ws_step sb Hwb f4 x4 Hf4.
   rewrite obj_colon by lia.
-  ws_step sb Hwc.
-  rename f1 into f5.
+  ws_step sb Hwc f5 x5 Hf5.
   (* the push *)
   destruct (render_first v Hwv) as (x0 & tl0 & Ex0 & Hx0).
   set (tailb := d ++ tl_ ++ rest).
@@ -154,14 +152,14 @@ Proof.
   { cbn [zlen]. lia. }
   { subst tailb. apply fol_rest_ws; [exact Hwd|]. subst tl_. destruct r; reflexivity. }
   subst tailb.
-  ws_step sb Hwd. rename f1 into f8.
+  ws_step sb Hwd f8 x8 Hf8.
   subst tl_. destruct r as [|y r].
   - cbn [app].
     match goal with |- context [run_f sb f8 _ (T c _ ?gg 0 ?oo) (mkloc ?xx nb ?ll None)] =>
       destruct (obj_pop_close c f8 rest (value sb v) None (decode k) acc below gg oo xx nb ll) as (g9 & ->); [lia|] end.
     exists REDO_FUEL, g9, 125, (value sb v). split; [exact F16|].
     cbn [map fold_left]. unfold add_kv at 1, mem_kv at 1, m_name, m_val. cbn [fst snd]. f_equal. f_equal.
-    cbn [render_mems render_mem]. unfold render_str. rewrite !zlen_app. cbn [zlen]. rewrite !zlen_app. cbn [zlen]. rewrite !zlen_app. cbn [zlen]. lia.
+    cbn [render_mems render_mem]. unfold render_str. repeat (progress (rewrite ?zlen_app; cbn [zlen])). lia.
   - cbn [app].
     match goal with |- context [run_f sb f8 _ (T c _ ?gg 0 ?oo) (mkloc ?xx nb ?ll None)] =>
       destruct (obj_pop_comma c f8 (render_mems (y :: r) ++ rest) (value sb v) None (decode k) acc below gg oo xx nb ll) as (g9 & ->); [lia|] end.
@@ -171,7 +169,7 @@ Proof.
     exists f10, g10, x10, lo10. split; [exact Hf10|].
     cbn [map fold_left]. unfold add_kv at 2, mem_kv at 2, m_name, m_val. cbn [fst snd]. f_equal. f_equal.
     change (render_mems ((a, k, b, cw, v, d) :: y :: r)) with (render_mem (a, k, b, cw, v, d) ++ 44 :: render_mems (y :: r)).
-    cbn [render_mem]. unfold render_str. rewrite !zlen_app. cbn [zlen]. rewrite !zlen_app. cbn [zlen]. rewrite !zlen_app. cbn [zlen]. rewrite ?zlen_app. lia.
+    cbn [render_mem]. unfold render_str. repeat (progress (rewrite ?zlen_app; cbn [zlen])). lia.
 Qed.
 
 Lemma obj_ok c w ms :
